@@ -387,7 +387,14 @@ def shard_fn(items, part):
             part.encoded(*h.funcs)
         before = len(part.cases)
         try:
-            check_point(h, p, alg, part)
+            try:
+                check_point(h, p, alg, part)
+            except KeyError as e:
+                # raised by gen.Vars / gen.label_map: the formula does not report a variable under its documented name
+                # - the documented variables are part of what every family promises
+                if 'documented name' not in str(e):
+                    raise
+                part.case(h.name, 'documented_variable_missing', p, str(e))
             for c in part.cases[before:]:
                 # the calls this process made earlier: replay tries a fresh process first and, if the
                 # behaviour does not show there, repeats these calls first (state kept between calls)
@@ -436,6 +443,13 @@ def _replay_once(case):
         return False, 'build raised %s: %s' % (type(e).__name__, e)
     if kind in ('unexpected_refusal', 'exception'):
         return False, 'build succeeded'
+    if kind == 'documented_variable_missing':
+        from .core import Part
+        try:
+            check_point(h, p, Z3Alg(), Part())
+        except KeyError as e:
+            return True, 'all_variable_labels()=%s: %s' % (list(F.all_variable_labels())[:12], e)
+        return False, 'the documented variables are all there'
     n = F.number_of_variables()
     rows = rows_of(F)
     opb = is_opb(F)
